@@ -16,6 +16,7 @@ pub fn gen_config(profile: &str, rng: &mut Rng, tier: Tier) -> Config {
 	let mut r = rng.fork("config");
 	let chan_type = *r.pick(&[ChanType::Legacy, ChanType::Anchors, ChanType::ZeroFee]);
 	let n_nodes = match profile {
+		"onionline" => r.range(3, 7) as usize,
 		"offchain" => {
 			if r.chance(7, 10) {
 				2
@@ -148,6 +149,19 @@ pub fn gen_config(profile: &str, rng: &mut Rng, tier: Tier) -> Config {
 			w(&mut weights, "PersistMgr", *r.pick(&[1, 3, 8]));
 		}
 	}
+	if profile == "onionline" {
+		// a quiet line: no chain activity, no crashes; failures come from the chosen hop or from
+		// packets altered in flight
+		for k in ["Crash", "ArmCrash", "Restart", "Mine", "Relay", "ForceClose", "CloseCoop", "SetFee", "AsyncOn", "PersistMgr"] {
+			w(&mut weights, k, 0);
+		}
+		w(&mut weights, "CompleteMon", 30);
+		w(&mut weights, "Send", 14);
+		w(&mut weights, "Claim", 10);
+		w(&mut weights, "FailBack", *r.pick(&[2, 6]));
+		w(&mut weights, "Disconnect", *r.pick(&[0, 0, 1]));
+		w(&mut weights, "Corrupt", *r.pick(&[0, 3, 8]));
+	}
 	if profile == "tamper" {
 		w(&mut weights, "Tamper", *r.pick(&[2, 4, 8]));
 		w(&mut weights, "Crash", *r.pick(&[0, 0, 1]));
@@ -271,7 +285,42 @@ fn chans_of(wd: &World, x: usize) -> Vec<(usize, usize)> {
 		.collect()
 }
 
+/// Profile `onionline`: a payment along the line over 1..n-1 hops, optionally with exactly one
+/// forwarding hop under-paid (fee or CLTV delta) so that this hop refuses.
+fn gen_send_line(wd: &World, rng: &mut Rng) -> Option<Action> {
+	let n = wd.nodes.len();
+	let from = rng.below(n as u64) as usize;
+	wd.mgr(from)?;
+	let dir_up = if from == 0 { true } else if from == n - 1 { false } else { rng.coin() };
+	let max_len = if dir_up { n - 1 - from } else { from };
+	// prefer long paths
+	let len = if rng.chance(1, 2) { max_len } else { 1 + rng.below(max_len as u64) as usize };
+	let mut path = Vec::new();
+	let mut cur = from;
+	for _ in 0..len {
+		let next = if dir_up { cur + 1 } else { cur - 1 };
+		let c = chans_of(wd, cur).into_iter().find(|(_, p)| *p == next)?;
+		path.push(c.0);
+		cur = next;
+	}
+	wd.mgr(cur)?;
+	let amt = rng.range(1_000_000, 20_000_000);
+	let (mut fee_delta, mut cltv_adj) = (0i64, 0i32);
+	if len >= 2 && rng.chance(1, 4) {
+		let j = rng.below(len as u64 - 1) as i64;
+		if rng.coin() {
+			fee_delta = -(j + 1);
+		} else {
+			cltv_adj = -(j as i32 + 1);
+		}
+	}
+	Some(Action::Send { from, to: cur, paths: vec![path], amts: vec![amt], fee_delta_msat: fee_delta, cltv_delta_adj: cltv_adj })
+}
+
 fn gen_send(wd: &World, rng: &mut Rng) -> Option<Action> {
+	if wd.cfg.profile == "onionline" {
+		return gen_send_line(wd, rng);
+	}
 	let n = wd.nodes.len();
 	let from = rng.below(n as u64) as usize;
 	wd.mgr(from)?;
@@ -409,6 +458,15 @@ pub fn next_action(wd: &World, rng: &mut Rng) -> Option<Action> {
 			kinds.push(("Heal", weight(cfg, "Heal")));
 		}
 	}
+	let corruptible: Vec<(usize, usize)> = wd
+		.queues
+		.iter()
+		.filter(|((f, t), q)| matches!(q.front(), Some(WireMsg::Add(_))) && wd.is_conn(*t, *f) && wd.nodes[*t].live.is_some())
+		.map(|(k, _)| *k)
+		.collect();
+	if !corruptible.is_empty() && wd.onion.corruptions < 3 {
+		kinds.push(("Corrupt", weight(cfg, "Corrupt")));
+	}
 	if !tamperable.is_empty() && wd.tampers_done < 2 {
 		kinds.push(("Tamper", weight(cfg, "Tamper")));
 	}
@@ -503,6 +561,10 @@ pub fn next_action(wd: &World, rng: &mut Rng) -> Option<Action> {
 		"Partition" => Action::Partition { n: pick_live(rng) },
 		"Gone" => Action::Gone { n: pick_live(rng) },
 		"Heal" => Action::Heal { n: *wd.partitioned.iter().next().unwrap() },
+		"Corrupt" => {
+			let (f, t) = *rng.pick(&corruptible);
+			Action::Corrupt { from: f, to: t, kind: rng.below(4) as u8, bit: rng.next_u64() as u32 }
+		},
 		"Tamper" => {
 			let (f, t, is_raa) = *rng.pick(&tamperable);
 			Action::Tamper { from: f, to: t, kind: if is_raa { rng.below(2) as u8 } else { 2 } }
